@@ -1,8 +1,8 @@
 (* semver::VersionReq as serde sees it (C15): Deserialize = `VersionReq::from_str` (semver 1.0.27 src/parse.rs),
    Serialize = `Display` (src/display.rs).  The parser below follows parse.rs function by function (prefix style: each
    function consumes a prefix and returns the rest); MAX_COMPARATORS = 32 is the fuel.
-   Not modelled: pre-release and build metadata after the patch number (`1.2.3-alpha`, `1.2.3+b1`): the model rejects
-   them (None), semver accepts them.
+   Pre-release identifiers after the patch number are part of the value (`1.2.3-alpha.1`); build metadata (`+b1`) is
+   parsed, checked and dropped, as in semver (a Comparator has no build field).
    Executable definitions only; lemmas in Proofs/VersionReqProofs.v. *)
 From Coq Require Import List NArith Bool.
 From PV Require Import Lib.ListX Model.Json.
@@ -11,7 +11,7 @@ Local Open Scope N_scope.
 
 Inductive vop := OpExact | OpGt | OpGe | OpLt | OpLe | OpTilde | OpCaret | OpWild.
 
-Record cmp := mkCmp { cop : vop; cmaj : N; cmin : option N; cpat : option N }.
+Record cmp := mkCmp { cop : vop; cmaj : N; cmin : option N; cpat : option N; cpre : str (* [] = none *) }.
 
 Definition u64_bound : N := 18446744073709551616.
 
@@ -82,8 +82,52 @@ Definition parse_op (s : str) : vop * str * bool :=
 Definition is_some {A} (o : option A) : bool := match o with Some _ => true | None => false end.
 Definition is_wild (o : vop) : bool := match o with OpWild => true | _ => false end.
 
-Definition starts_pre_or_build (s : str) : bool :=
-  match s with c :: _ => (c =? c_dash) || (c =? c_plus) | [] => false end.
+(* ---- identifier(): dot-separated segments of [0-9A-Za-z-]; no empty segment; in a pre-release a numeric segment has
+   no leading zero.  semver scans segment by segment; equivalently: take the maximal run of identifier characters and dots,
+   split it at the dots, check every segment.  (An empty run is `Ok("")` there and an error in the caller: None here.) ---- *)
+Definition is_ident_char (c : N) : bool :=
+  is_digit c || ((65 <=? c) && (c <=? 90)) || ((97 <=? c) && (c <=? 122)) || (c =? c_dash).
+Definition is_ident_or_dot (c : N) : bool := is_ident_char c || (c =? c_dot).
+
+Fixpoint span_by (p : N -> bool) (s : str) : str * str :=
+  match s with
+  | c :: s' => if p c then (c :: fst (span_by p s'), snd (span_by p s')) else ([], s)
+  | [] => ([], [])
+  end.
+
+Fixpoint split_on (c : N) (s : str) : list str :=
+  match s with
+  | [] => [[]]
+  | x :: s' => if x =? c then [] :: split_on c s'
+               else match split_on c s' with h :: t => (x :: h) :: t | [] => [[x]] end
+  end.
+
+Definition seg_ok (pre : bool) (seg : str) : bool :=
+  match seg with
+  | [] => false
+  | d :: r => negb (pre && (d =? c_zero) && negb (match r with [] => true | _ :: _ => false end) && forallb is_digit seg)
+  end.
+
+Definition ident_valid (pre : bool) (body : str) : bool :=
+  forallb is_ident_or_dot body && forallb (seg_ok pre) (split_on c_dot body).
+
+Definition identifier (pre : bool) (s : str) : option (str * str) :=
+  let body := fst (span_by is_ident_or_dot s) in
+  if forallb (seg_ok pre) (split_on c_dot body) then Some (body, snd (span_by is_ident_or_dot s)) else None.
+
+Definition parse_pre (has_patch : bool) (t : str) : option (str * str) :=
+  match t with
+  | c :: t' => if has_patch && (c =? c_dash) then identifier true t' else Some ([], t)
+  | [] => Some ([], t)
+  end.
+
+Definition parse_build (has_patch : bool) (t : str) : option str :=
+  match t with
+  | c :: t' => if has_patch && (c =? c_plus)
+               then match identifier false t' with Some (_, r) => Some r | None => None end
+               else Some t
+  | [] => Some t
+  end.
 
 (* minor: (minor, rest, has_wildcard, operator) *)
 Definition parse_minor (dflt : bool) (op : vop) (t : str) : option (option N * str * bool * vop) :=
@@ -125,8 +169,14 @@ Definition parse_cmp (s : str) : option (cmp * str) :=
               match parse_patch dflt hasw op2 t2 with
               | None => None
               | Some (pa, t3, op3) =>
-                  if is_some pa && starts_pre_or_build t3 then None     (* pre-release / build: not modelled *)
-                  else Some (mkCmp op3 maj mi pa, trim t3)
+                  match parse_pre (is_some pa) t3 with
+                  | None => None
+                  | Some (pre, t4) =>
+                      match parse_build (is_some pa) t4 with
+                      | None => None
+                      | Some t5 => Some (mkCmp op3 maj mi pa pre, trim t5)
+                      end
+                  end
               end
           end
       end
@@ -172,7 +222,7 @@ Definition print_cmp (c : cmp) : str :=
   match cmin c with
   | Some mi => c_dot :: print_dec mi ++
                match cpat c with
-               | Some pa => c_dot :: print_dec pa
+               | Some pa => c_dot :: print_dec pa ++ match cpre c with [] => [] | _ :: _ => c_dash :: cpre c end
                | None => wild_suffix (cop c)
                end
   | None => wild_suffix (cop c)
@@ -195,7 +245,8 @@ Definition opt_lt (o : option N) : bool := match o with Some n => n <? u64_bound
 
 Definition cmp_wf (c : cmp) : bool :=
   (cmaj c <? u64_bound) && opt_lt (cmin c) && opt_lt (cpat c)
-  && match cpat c with Some _ => is_some (cmin c) && negb (is_wild (cop c)) | None => true end.
+  && match cpat c with Some _ => is_some (cmin c) && negb (is_wild (cop c)) | None => true end
+  && match cpre c with [] => true | _ :: _ => is_some (cpat c) && ident_valid true (cpre c) end.
 
 Definition vreq_wf (l : list cmp) : bool := forallb cmp_wf l && Nat.leb (length l) max_comparators.
 
